@@ -374,6 +374,7 @@ def _config_check(cfg):
             seen.setdefault("qc:files", "%s: %s not written" % (ctx0, f))
     # ---- several workers: every trace
     stats = []
+    capinfo = []
     shown = None
     for p in range(2, cfg["pmax"] + 1):
         ctx = "%s workers=%d" % (ctx0, p)
@@ -419,8 +420,7 @@ def _config_check(cfg):
             x, y = (conf_out or conf)[0]
             seen.setdefault("coverage:writers-disagree", "%s: two workers write different values to the same place: %r vs %r (%d bytes of out.bin in dispute)" % (ctx, x, y, disagree))
         scheds, norient, ncyc, capped = sched.traces(per, conf, cap=256 if cfg["pmax"] <= 4 else 64)
-        if capped:
-            scheds = sched.preemption_bounded(per, 1)[:64]
+        # (more orientations than the cap: sched.traces then enumerates them by deviations from the default orientation, 0, 1, 2, ... and mirrored)
         # always at least: natural order (done), reverse worker order, round robin
         extra = []
         lens = {t: len(per[t]) for t in per}
@@ -470,13 +470,18 @@ def _config_check(cfg):
         if len(outcomes) > 1:
             seen.setdefault("schedule-dependent", "%s: %d different results over %d schedules" % (ctx, len(outcomes), len(compare)))
         stats.append((p, sum(lens.values()), sched.overlaps(per), len(conf), norient, ncyc, len(compare), len(outcomes)))
+        if capped:
+            capinfo.append(int(capped) - 1)
         if conf and shown is None:
             shown = dict(configuration={k: v for k, v in cfg.items() if k != "labels"}, workers=p, shared_operations=sum(lens.values()),
                          value_conflict_pairs=len(conf), first_conflict=[repr(conf[0][0]), repr(conf[0][1])],
                          executed_schedule=[int(t) for t in compare[-1][0][:60]], result="byte-identical to the one-worker run")
     x = dict(worker_configurations=len(stats), shared_operations=sum(st[1] for st in stats), overlapping_write_pairs=sum(st[2] for st in stats),
              value_conflict_pairs=sum(st[3] for st in stats), orientations=sum(st[4] for st in stats), cyclic_orientations=sum(st[5] for st in stats),
-             schedules_executed=sum(st[6] for st in stats), distinct_results=sum(st[7] for st in stats))
+             schedules_executed=sum(st[6] for st in stats), distinct_results=sum(st[7] for st in stats),
+             deviation_bounded_configurations=len(capinfo))
+    if capinfo:
+        x["deviation_levels_completed"] = sum(c + 1 for c in capinfo)      # levels 0..k of orientation deviations, summed over those configurations
     return Res(list(seen.items()), o=tuple((st[0], st[3] > 0, st[7]) for st in stats), tr=ntr, x=x, s=shown)
 
 
